@@ -2,13 +2,24 @@ use crate::{Error, ValR, ValT, ValTx};
 use alloc::string::{String, ToString};
 use jiff::{civil::DateTime, fmt::strtime, tz, Timestamp};
 
+/// Return the value as floating-point number, failing on NaN and infinities
+/// (which would otherwise be cast to 0 or to the largest integer).
+fn finite_f64<V: ValT>(v: &V) -> Result<f64, Error<V>> {
+    let f = v.try_as_f64()?;
+    if f.is_finite() {
+        Ok(f)
+    } else {
+        Err(Error::str(format_args!("cannot convert {v} to time")))
+    }
+}
+
 /// Convert a UNIX epoch timestamp with optional fractions.
 fn epoch_to_timestamp<V: ValT>(v: &V) -> Result<Timestamp, Error<V>> {
     let val = match v.as_isize() {
         Some(i) => (i as i64)
             .checked_mul(1000000)
             .ok_or_else(|| Error::str(format_args!("cannot convert {v} to time")))?,
-        None => (v.try_as_f64()? * 1000000.0) as i64,
+        None => (finite_f64(v)? * 1000000.0) as i64,
     };
     Timestamp::from_microsecond(val).map_err(Error::str)
 }
@@ -74,7 +85,7 @@ pub fn to_iso8601<V: ValT>(v: &V) -> Result<String, Error<V>> {
     let ts = if let Some(i) = v.as_isize() {
         Timestamp::from_second(i as i64)
     } else {
-        Timestamp::from_microsecond((v.try_as_f64()? * 1e6) as i64)
+        Timestamp::from_microsecond((finite_f64(v)? * 1e6) as i64)
     };
     Ok(ts.map_err(Error::str)?.to_string())
 }
